@@ -148,7 +148,10 @@ NodeScenarios ==
    src/modules.rs for a skipped `mod x;`): the file is neither changed nor reported as differing,
    whatever the emit mode, while the other files of the same run are formatted *)
 OptOuts == {"inner_skip", "inner_depr", "inner_cfg_skip", "disable_all", "ignore", "generated",
-            "skipped_mod_decl", "inner_skip_child"}
+            "skipped_mod_decl", "inner_skip_child",
+            \* the skipped declaration stands in a file that is not the root / in an inline module
+            \* of such a file / inside cfg_if! (other entry points of the module resolver)
+            "skipped_mod_decl_nonroot", "skipped_mod_decl_inline", "skipped_mod_decl_cfg_if"}
 Modes == {"files", "check", "list", "stdout_diff"}
 OptOutScenarios ==
   (path = <<>> /\ crated = "none") =>
